@@ -19,11 +19,16 @@ type access struct {
 	Locks []string `json:"locks"`
 	Own   []string `json:"own"`
 	Fresh bool     `json:"fresh"`
+	Pre   []string `json:"pre"`
+	Post  []string `json:"post"`
+	Roots []string `json:"roots"`
 	Pos   string   `json:"pos"`
 }
 
 type table struct {
 	Accesses []access `json:"accesses"`
+	// writes that can reach memory already published to lock-free readers (must be empty: C18_published_immutable)
+	PostPublicationWrites []string `json:"postPublicationWrites"`
 }
 
 type Area struct{}
@@ -61,11 +66,14 @@ func locks(l []string) string {
 }
 
 func key(a access) string {
-	return fmt.Sprintf("%s %s %s %s %s", a.Func, b2s(a.Write), locks(a.Locks), locks(a.Own), b2s(a.Fresh))
+	return fmt.Sprintf("%s %s %s %s %s %s %s %s", a.Func, b2s(a.Write), locks(a.Locks), locks(a.Own), b2s(a.Fresh), locks(a.Pre), locks(a.Post), locks(a.Roots))
 }
 
 func (Area) Gen(r *rand.Rand, tier string, emit func(string)) {
 	t := load()
+	for _, w := range t.PostPublicationWrites {
+		emit("ppw " + strings.ReplaceAll(w, " ", "_"))
+	}
 	for i, a := range t.Accesses {
 		for j, b := range t.Accesses {
 			if j < i || a.Field != b.Field || !(a.Write || b.Write) {
@@ -78,7 +86,15 @@ func (Area) Gen(r *rand.Rand, tier string, emit func(string)) {
 
 func (Area) Exec(input string) string {
 	f := strings.Fields(input)
-	if len(f) != 12 || f[0] != "pair" {
+	if len(f) == 2 && f[0] == "ppw" {
+		for _, w := range load().PostPublicationWrites {
+			if strings.ReplaceAll(w, " ", "_") == f[1] {
+				return "present"
+			}
+		}
+		return "absent"
+	}
+	if len(f) != 18 || f[0] != "pair" {
 		return "BADOP"
 	}
 	t := load()
@@ -86,7 +102,7 @@ func (Area) Exec(input string) string {
 	for _, a := range t.Accesses {
 		have[a.Field+" "+key(a)] = true
 	}
-	if have[f[1]+" "+strings.Join(f[2:7], " ")] && have[f[1]+" "+strings.Join(f[7:12], " ")] {
+	if have[f[1]+" "+strings.Join(f[2:10], " ")] && have[f[1]+" "+strings.Join(f[10:18], " ")] {
 		return "present"
 	}
 	return "absent"
